@@ -132,7 +132,8 @@ def run(res, tier, seed, shard, nshards):
                 stream = build_message(rng, R.TEXT if is_text else R.BINARY, payload, comp, gaps) + R.encode(R.BINARY, b"SENT")
                 judge(res, W, stream, rng.choice(CALLS), rng.randrange(2), rng.randrange(2), ("large", is_text, len(payload), k), True, chunk=rng.choice([None, 1000, 7]))
 
-    H.in_sim(scen, watchdog=3000)
+    with H.ambient((seed, shard, "C04"), res):
+        H.in_sim(scen, watchdog=3000)
 
 
 def judge(res, W, stream, call, pf, skip, tag, nontrivial, chunk=None):
